@@ -76,6 +76,7 @@ func c15(c *core.Ctx) {
 	c.Explain("C15 (concurrency): decided statically — R1 guarded-by regions: every access to the listed mutable state (session tables, statistics, subscription and retained tries, both queues, packet id limiter, receive quota, session store, federation tables) happens with its lock held on every path (must-hold lockset; 'returns holding the lock when err == nil' summaries; requirement propagated to all callers and to every use site of a closure; writes need the write lock); R2 the lock-order graph between lock classes (transitive through calls, callbacks instantiated per call site, locks a callee holds around a callback included) has no cycle, no class is re-acquired while held, and no connection life-cycle wait happens under srv.mu; R3 a select case that receives from a channel that gets closed leaves its loop; R4 every goroutine that calls WaitGroup.Done is counted by an Add that precedes its start and reaches Done on every exit, Add totals match; R5 struct-field channels are closed only at the confirmed once-only sites; R6 the per-connection and stream goroutines contain panics (deferred recover into setError); R7 Stop runs its body once, waits for every connection's closed channel before unloading plugins and firing OnStop, closes all listeners; serve joins its goroutines and closed is signalled after unregistration.")
 	c.NotDecided("races on state outside the listed regions, bounded response time, instance-level inversions inside one lock class")
 	c.Assume("callbacks run synchronously inside the call they are passed to (true for every Iterate of this repository)")
+	lockKeptUntilInstalled(c, "C15.R1")
 	la := newLockA(c)
 	for _, rg := range c15Regions() {
 		la.checkRegion("C15.R1", rg)
